@@ -32,13 +32,17 @@ func (lc lightCase) String() string {
 
 // awaitCall runs call on its own goroutine under vkit.Await. ok = it returned.
 func awaitCall(c *vkit.Case, desc string, call func()) (ok bool) {
+	return awaitCallOpts(c, desc, vkit.AwaitOpts{}, call)
+}
+
+func awaitCallOpts(c *vkit.Case, desc string, opts vkit.AwaitOpts, call func()) (ok bool) {
 	var pnc *vkit.Panic
 	done := make(chan struct{})
 	go func() {
 		defer close(done)
 		pnc = vkit.Try(call)
 	}()
-	verdict, dump := vkit.Await(done, vkit.AwaitOpts{})
+	verdict, dump := vkit.Await(done, opts)
 	switch verdict {
 	case vkit.AwaitStuck:
 		if len(dump) > 12000 {
